@@ -6,7 +6,7 @@ for d in /verif/seeded/$id/*/; do
   k=$(basename $d)
   [ -n "${SEED_KS:-}" ] && ! echo " $SEED_KS " | grep -q " $k " && continue
   ov=$(/verif/tools/seed_overlay.sh $d/patch.diff ${id,,}-$k)
-  VERIF_MUTANT_OVERLAY=$ov VERIF_OUT_DIR=/root/scratch/mut/seed-$id-$k timeout 3600 /verif/check $chk quick > /root/scratch/seedrun_${id}_$k.log 2>&1
+  VERIF_STOP_AFTER_FAIL=1 VERIF_MUTANT_OVERLAY=$ov VERIF_OUT_DIR=/root/scratch/mut/seed-$id-$k timeout 3600 /verif/check $chk quick > /root/scratch/seedrun_${id}_$k.log 2>&1
   rc=$?
   { echo "check=$chk rc=$rc ($( [ $rc = 1 ] && echo CAUGHT || echo "NOT CAUGHT (rc=$rc)"))"; grep -E "^--- viol|failing-key|HARNESS|BUILD" /root/scratch/seedrun_${id}_$k.log | cut -c1-300 | head -4; } > $d/check_result.txt
   echo "$id/$k: $(head -1 $d/check_result.txt)"
